@@ -22,6 +22,7 @@ import (
 	"sync"
 
 	"github.com/olive-io/bpmn/schema"
+	"github.com/olive-io/bpmn/v2/internal/verifhook"
 	"github.com/olive-io/bpmn/v2/pkg/errors"
 	"github.com/olive-io/bpmn/v2/pkg/id"
 	"github.com/olive-io/bpmn/v2/pkg/tracing"
@@ -173,6 +174,7 @@ func (gw *inclusiveGateway) run(ctx context.Context, sender tracing.ISenderHandl
 				}
 			}
 		case <-activity:
+			verifhook.Point("inclusive.activity")
 			if !gw.synchronized && gw.activated != nil {
 				gw.awaiting = gw.flowTracker.activeFlowsInCohort(gw.activated.flow.Id())
 				gw.trySync()
@@ -283,6 +285,7 @@ func (tracker *flowTracker) run() {
 		default:
 			// Nothing else is coming in, unlock if locked
 			if locked && reachedNode {
+				verifhook.Point("tracker.before_unlock")
 				tracker.lock.Unlock()
 				if notify {
 					select {
